@@ -12,8 +12,8 @@ from ..sched import run_scheduled
 
 ID = "C01"
 LEVEL = "exploration"
-BUDGET = {"quick": 1600, "thorough": 64000}
-SHARDS = {"quick": 8, "thorough": 16}
+BUDGET = {"quick": 3200, "thorough": 64000}
+SHARDS = {"quick": 16, "thorough": 16}
 RULE = (
     "Hypothesis-generated acyclic gate-free programs (2-9 nodes quick, 2-12 thorough; 0-3 params per node drawn from earlier "
     "outputs or fresh inputs; 0-3 outputs; defaults per parameter name; random node-list permutation; bindings, run-time "
